@@ -31,7 +31,7 @@ namespace TrRouting
     int totalTransferWaitingTime { 0}; int inVehicleTime          {-1};
     int totalDistance            { 0}; int distance               {-1};
     int inVehicleDistance        {-1}; int totalInVehicleDistance { 0}; int totalWalkingDistance { 0};
-    int totalTransferDistance    {-1}; int accessDistance         { 0}; int egressDistance       { 0};
+    int totalTransferDistance    { 0}; int accessDistance         { 0}; int egressDistance       { 0};
     int accessWalkingTime      {-1};
     int transferTime             {-1}; int egressWalkingTime      {-1};
     int waitingTime              {-1}; int accessWaitingTime      {-1};
